@@ -22,8 +22,8 @@ def from_lib(r, depth=0):
     if isinstance(r, R.One):
         return ONE
     if isinstance(r, R.Symbol):
-        if not isinstance(r.symbol, str) or len(r.symbol) != 1:
-            raise Malformed('symbol {!r} is not a single character'.format(r.symbol))
+        if not isinstance(r.symbol, str) or len(r.symbol) < 1:
+            raise Malformed('symbol {!r} is not a non-empty string'.format(r.symbol))
         return ('s', str(r.symbol))
     if isinstance(r, R.Iteration):
         return ('*', from_lib(r.operand, depth + 1))
@@ -34,8 +34,18 @@ def from_lib(r, depth=0):
     raise Malformed('not a Regexp node: {!r}'.format(type(r).__name__))
 
 
-def to_lib(spec):
+def to_lib(spec, share=None):
+    """share: a dict -> equal subtrees become ONE node object (a DAG, as dfa_to_regexp produces them)."""
+    if share is not None:
+        if spec not in share:
+            share[spec] = _to_lib(spec, share)
+        return share[spec]
+    return _to_lib(spec, None)
+
+
+def _to_lib(spec, share):
     from gambatools import regexp as R
+    to_lib_ = (lambda x: to_lib(x, share))
     t = spec[0]
     if t == '0':
         return R.Zero()
@@ -44,11 +54,11 @@ def to_lib(spec):
     if t == 's':
         return R.Symbol(spec[1])
     if t == '*':
-        return R.Iteration(to_lib(spec[1]))
+        return R.Iteration(to_lib_(spec[1]))
     if t == '+':
-        return R.Sum(to_lib(spec[1]), to_lib(spec[2]))
+        return R.Sum(to_lib_(spec[1]), to_lib_(spec[2]))
     if t == '.':
-        return R.Concat(to_lib(spec[1]), to_lib(spec[2]))
+        return R.Concat(to_lib_(spec[1]), to_lib_(spec[2]))
     raise ValueError(spec)
 
 
@@ -80,7 +90,7 @@ def doc_size(spec):
 def symbols(spec):
     t = spec[0]
     if t == 's':
-        return {spec[1]}
+        return set(spec[1])
     out = set()
     for x in spec[1:]:
         if isinstance(x, tuple):
@@ -124,7 +134,9 @@ def deriv(r, c):
     if t in '01':
         return ZERO
     if t == 's':
-        return ONE if r[1] == c else ZERO
+        if r[1][0] != c:
+            return ZERO
+        return ONE if len(r[1]) == 1 else ('s', r[1][1:])      # a symbol may be an identifier of several characters
     if t == '+':
         return _plus(deriv(r[1], c), deriv(r[2], c))
     if t == '*':
@@ -143,8 +155,22 @@ def matches(r, w):
     return nullable(r)
 
 
+def expand(r):
+    """Multi-character symbols written out as concatenations of single characters."""
+    t = r[0]
+    if t == 's' and len(r[1]) > 1:
+        out = ('s', r[1][-1])
+        for ch in reversed(r[1][:-1]):
+            out = ('.', ('s', ch), out)
+        return out
+    if t in ('0', '1', 's'):
+        return r
+    return (t,) + tuple(expand(x) for x in r[1:])
+
+
 def glushkov(r, sigma=None):
     """Position automaton (epsilon free) as fa.FA."""
+    r = expand(r)
     pos = []
 
     def rec(r):
@@ -195,7 +221,7 @@ def trees_of_size(n, leaves=('0', '1', 'a', 'b')):
     out = []
     if n == 1:
         for x in leaves:
-            out.append((x,) if x in ('0', '1') else ('s', x[-1]))     # 's0' / 's1': the SYMBOLS 0 and 1 (they print like the constants)
+            out.append((x,) if x in ('0', '1') else ('s', x[1:] if x[0] == 's' and len(x) > 1 else x))     # 's0' / 's1': the SYMBOLS 0 and 1; 'sab': the identifier ab
     elif n >= 2:
         for r in trees_of_size(n - 1, leaves):
             out.append(('*', r))
